@@ -22,7 +22,8 @@ Proof.
 Qed.
 
 (* well-formed case: graphs are sets, graph names are distinct, the data (and the
-   graph names) hold no boolean literals *)
+   graph names) hold no boolean literals - literals of ONE kind only: the
+   complement of the data half of the region of F-C04-9 (Findings.second_kind) *)
 Definition case_wf (c : case) : bool :=
   nodup_graph (ds_default (c_ds c))
   && nodup_terms (map fst (ds_named (c_ds c)))
